@@ -59,7 +59,7 @@ def expected_class(ex, err_kind, code):
 
 def reply_fields(ex, be, expected_state, others):
     """symbolic reply: State (absent | any byte | empty), Error (absent | any byte | empty | two bytes), subset of `others`"""
-    state_kind = ex.choice("state_kind", ["present", "absent", "empty"])
+    state_kind = ex.choice("state_kind", ["present", "absent", "empty", "expected-then-another-byte"])
     state = ex.fresh_int("state", 0, 255)
     err_kind = ex.choice("error_kind", ["absent", "byte", "empty", "two-bytes"])
     code = ex.fresh_int("error", 0, 255)
@@ -68,6 +68,8 @@ def reply_fields(ex, be, expected_state, others):
         fields.append((T_STATE, byte(state)))
     elif state_kind == "empty":
         fields.append((T_STATE, b""))  # a State item truncated to zero length is not the expected step number
+    elif state_kind == "expected-then-another-byte":
+        fields.append((T_STATE, rope(byte(expected_state), byte(state))))  # only starts with the expected step (e.g. two State items joined)
     if err_kind == "byte":
         fields.append((T_ERROR, byte(code)))
     elif err_kind == "empty":
@@ -77,7 +79,7 @@ def reply_fields(ex, be, expected_state, others):
     for i, (t, v) in enumerate(others):
         if ex.fresh_bool("has_field%d" % i):
             fields.append((t, v))
-    state_wrong = state_kind == "empty" or (state_kind == "present" and decide(state != expected_state))
+    state_wrong = state_kind in ("empty", "expected-then-another-byte") or (state_kind == "present" and decide(state != expected_state))
     return fields, state_kind, state_wrong, err_kind, code
 
 
